@@ -80,6 +80,9 @@ def run(tier, seed):
     return conf.finish()
 
 
+EXPECTED_IDS = {"std256": [12, 13, 14, 15, 23, 24], "multi": [12, 13, 14, 15, 23, 24]}
+
+
 def fresh_table(cfg, wd, label):
     """probe of a freshly initialised library, ONE PROCESS per parameter id"""
     exe = core.cc_harness(cfg, "ctx", ["drv_ctx.c"])
@@ -87,6 +90,8 @@ def fresh_table(cfg, wd, label):
     os.makedirs(d, exist_ok=True)
     open(os.path.join(d, "ids.txt"), "w").write("ids\n")
     ids = core.run_driver(exe, os.path.join(d, "ids.txt"), os.path.join(d, "ids.ndjson"))[0]["ids"]
+    # the sets of the pinned build are part of the histories whether or not the scan still finds them
+    ids = sorted(set(ids) | set(EXPECTED_IDS.get(cfg, [])))
     table = []
     for i in ids:
         cp = os.path.join(d, "f%d.txt" % i)
@@ -102,7 +107,13 @@ def fresh_table(cfg, wd, label):
 
 def context_half(conf, ev, wd, rng, quick):
     """re-parameterisation histories, context switches, threads (code -> spec)"""
-    core.run_models(ev, [("MCCtx", "MCCtx", "4 parameter ids (plain, endom, 2 pairing), 3 contexts, 2 threads, 5 steps", False)])
+    core.run_models(ev, [("MCCtx", "MCCtx", "4 parameter ids (plain, endom, 2 pairing), 3 contexts, 2 threads, 5 steps; selection, "
+                                            "core_set, throw / fetch, core_clean, core_init on the same memory", False)])
+    # control: a core_init that leaves the sticky code of the first life must be refuted (SecondLifeIsFresh is not vacuous)
+    c = core.tlc("model/MCCtx.tla", "model/MCCtx_ctl.cfg", workers=4, timeout=600)
+    if c.invariant_violated != "SecondLifeIsFresh":
+        raise core.InfraError("control model MCCtx_ctl: expected a counterexample to SecondLifeIsFresh, got %r" % c.invariant_violated)
+    ev.cov["model_control_ctx"] = "core_init keeping the code of the first life refuted by TLC (SecondLifeIsFresh violated) as expected"
     ids, fresh = fresh_table("std256", wd, "std256")
     ev.cov["parameter_ids"] = ids
     cases = []
@@ -118,6 +129,9 @@ def context_half(conf, ev, wd, rng, quick):
     pairs = list(itertools.permutations(ids, 2))
     for a, b in (rng.sample(pairs, 8) if quick else pairs):
         cases.append("two %d %d 2" % (a, b))
+    # a caller-provided context in its second life (used, left with an unfetched error, cleaned, initialised again)
+    for a, b in (rng.sample(pairs, 4) + [(ids[0], ids[0])] if quick else pairs + [(i, i) for i in ids]):
+        cases.append("reinit %d %d" % (a, b))
 
     def nt(e):
         return e.get("pos", 0) > 1          # non-trivial: a probe after at least one earlier selection
